@@ -8,6 +8,7 @@ package main
 
 import (
 	"bytes"
+	"cmp"
 	"encoding/json"
 	"fmt"
 	"math/rand"
@@ -457,7 +458,10 @@ func corpus(x Inst, r *rand.Rand, own []string, thorough bool) []string {
 			`{"1":10,"1":11}`, `{"1":10,"2":20,"1":12}`, `{"1":10,"2":10}`, `{"1":10,"2":10,"3":10}`, `{"2":7,"1":7,"3":8}`,
 			"[]", "[1]", `{"1":"x"}`, `{"1":10,"2":"x"}`, `{"x":1}`, `{"1":10,"x":1}`, `{"1":1.5}`, `{"1.5":1}`, `{"1":null}`,
 			`{"01":1}`, `{"-1":5,"0":6}`, `{"1":10,"2":20}garbage`, `{"1":99999999999999999999}`,
-			`{"0":1,"1":2,"2":3}`, `{"1":5,"0":6,"3":7,"2":8}`, `{"0":4,"1":4}`}
+			`{"0":1,"1":2,"2":3}`, `{"1":5,"0":6,"3":7,"2":8}`, `{"0":4,"1":4}`,
+			// member names in another spelling that encoding/json accepts for integer keys, several members, not in key order
+			`{"003":30,"001":10,"002":20,"4":40}`, `{"5":50,"+3":30,"-0":0,"2":20}`, `{"007":7,"8":8}`, `{"8":8,"007":7}`, `{"1":10,"01":11}`,
+			`{"2":20,"+1":10,"3":30}`}
 	} else if _, ok := x.(*heapInst); ok {
 		c = []string{"[]", ` [ ] `, `[{"p":1,"id":1}]`, `[{"p":3,"id":1},{"p":1,"id":1}]`, `[{"p":3,"id":1},{"p":2,"id":1},{"p":1,"id":1}]`,
 			`[{"p":2,"id":1},{"p":2,"id":2},{"p":1,"id":1},{"p":1,"id":2}]`, `[{"p":1,"id":1},{"p":1,"id":1}]`,
@@ -748,37 +752,69 @@ type strMap interface {
 	jsonable
 }
 
+// SK: an integer key type with a String() method (like time.Month): fmt prints it by name, encoding/json by number
+type SK int
+
+func (k SK) String() string {
+	return []string{"zero", "one", "two", "three", "four", "five"}[((int(k)%6)+6)%6] + "!"
+}
+
+type kvMap[K comparable, W any] interface {
+	Put(K, W)
+	Get(K) (W, bool)
+	Remove(K)
+	Keys() []K
+	Size() int
+	ToJSON() ([]byte, error)
+	FromJSON([]byte) error
+}
+
+// round trips of the 8 key-value kinds with keys and values that are not plain integers
 func strRoundTrips(j *jobCtx) {
-	mk := map[string]func() strMap{
-		"hashmap":       func() strMap { return hashmap.New[string, string]() },
-		"treemap":       func() strMap { return treemap.New[string, string]() },
-		"linkedhashmap": func() strMap { return linkedhashmap.New[string, string]() },
-		"hashbidimap":   func() strMap { return hashbidimap.New[string, string]() },
-		"treebidimap":   func() strMap { return treebidimap.New[string, string]() },
-		"redblacktree":  func() strMap { return rbt.New[string, string]() },
-		"avltree":       func() strMap { return avltree.New[string, string]() },
-		"btree":         func() strMap { return btree.New[string, string](3) },
+	kvRoundTrips(j, "str", []string{"x", "b", "a", "q\"uote", "é"}, []string{"a", "q", "z", "b", "x:\"a\"", ""},
+		func(k string) string { return k }, func(v string) string { return v })
+	kvRoundTrips(j, "stringer", []SK{12, 3, 7, 1, 5, -2}, []string{"a", "one!", "7", "", "z"},
+		func(k SK) string { return itoa(int(k)) }, func(v string) string { return v })
+	kvRoundTrips(j, "named", []Name{"x", "b", "a", "10", "9"}, []SK{1, 2, 3, 0},
+		func(k Name) string { return string(k) }, func(v SK) string { return itoa(int(v)) })
+	kvRoundTrips(j, "int8", []int8{-128, 127, 0, -1, 10, 9}, []string{"a", "b", "-1", ""},
+		func(k int8) string { return itoa(int(k)) }, func(v string) string { return v })
+}
+
+func kvRoundTrips[K cmp.Ordered, W cmp.Ordered](j *jobCtx, tag string, keys []K, vals []W, kstr func(K) string, wstr func(W) string) {
+	type M = kvMap[K, W]
+	mk := map[string]func() M{
+		"hashmap":       func() M { return hashmap.New[K, W]() },
+		"treemap":       func() M { return treemap.New[K, W]() },
+		"linkedhashmap": func() M { return linkedhashmap.New[K, W]() },
+		"hashbidimap":   func() M { return hashbidimap.New[K, W]() },
+		"treebidimap":   func() M { return treebidimap.New[K, W]() },
+		"redblacktree":  func() M { return rbt.New[K, W]() },
+		"avltree":       func() M { return avltree.New[K, W]() },
+		"btree":         func() M { return btree.New[K, W](3) },
 	}
-	keys := []string{"x", "b", "a", "q\"uote", "é"}
-	vals := []string{"a", "q", "z", "b", "x:\"a\"", ""}
-	content := func(m strMap) []any {
+	content := func(m M) []any {
 		out := []any{}
 		for _, k := range m.Keys() {
 			v, _ := m.Get(k)
-			out = append(out, []string{k, v})
+			out = append(out, []string{kstr(k), wstr(v)})
 		}
 		return out
 	}
-	for kind, newM := range mk {
+	for _, kind := range []string{"hashmap", "treemap", "linkedhashmap", "hashbidimap", "treebidimap", "redblacktree", "avltree", "btree"} {
+		newM := mk[kind]
 		if !j.want(kind) {
 			continue
 		}
 		disc := jsonDisc(kind)
 		cfg := Ev{"disc": disc, "kv": true, "cmp": "", "vcmp": "", "cap": 0, "m": 0, "sorted": false, "linked": kind == "linkedhashmap",
-			"bidi": mapBidi(kind), "vsorted": false, "zero": 0, "strings": true}
+			"bidi": mapBidi(kind), "vsorted": false, "zero": 0, "strings": true, "elem": tag}
 		n := 60
 		if !j.quick() {
 			n = 600
+		}
+		if tag != "str" {
+			n /= 2
 		}
 		for t := 0; t < n; t++ {
 			m := newM()
@@ -792,11 +828,11 @@ func strRoundTrips(j *jobCtx) {
 						m.Put(k, vals[(j.r.Intn(len(vals))+s)%len(vals)])
 					}
 				}
-				if t == 0 { // the documented example: a value whose text equals a later key
+				if t == 0 && len(keys) >= 3 && len(vals) >= 3 { // (for strings: the documented example, a value whose text equals a later key)
 					m = newM()
-					m.Put("x", "a")
-					m.Put("b", "q")
-					m.Put("a", "z")
+					m.Put(keys[0], vals[0])
+					m.Put(keys[1], vals[1])
+					m.Put(keys[2], vals[2])
 				}
 			})
 			e := Ev{"fam": "json", "kind": kind, "cfg": cfg, "op": "RoundTrip", "rs": 1, "timeout": false, "obsbad": false,
@@ -823,7 +859,7 @@ func strRoundTrips(j *jobCtx) {
 			e["loaderr"], e["fresh"], e["fsize"] = e1 != nil || ci.Panic, content(y), y.Size()
 			e["loaderr2"], e["fresh2"], e["fsize2"] = e2 != nil || ci.Panic, content(z), z.Size()
 			emit(e)
-			distinct["rts|"+kind+"|"+string(text)] = struct{}{}
+			distinct["rts|"+tag+"|"+kind+"|"+string(text)] = struct{}{}
 		}
 	}
 }
